@@ -65,8 +65,8 @@ def extra_obligations(index, tier):
         if "_compute" not in key:
             out.append((f"{key.split(':')[1]} appends the analysis file's patterns to the -x patterns",
                         "args.excludes += analysis_toml['codebase']['exclude']" in s, "", key))
-    for key in ("codebasin.__main__:_main", "codebasin.tree:_tree", "codebasin.coverage.__main__:_build_parser"):
-        pass
+    out += [o for o in C08.extra_obligations(index, tier) if o[0].startswith("structure/")]
+    out += [o for o in C09.extra_obligations(index, tier) if o[0].startswith("the exclude list")]
     return out
 
 
